@@ -119,7 +119,16 @@ func RunScenarios(r *report.Run, scen []Scenario, opt Options) {
 			if sc.Cfg.Name != rc.Scenario {
 				continue
 			}
-			w, _ := runOnce(sc.Cfg, rc.Choices, sc.Bound, true, opt.Monitors)
+			w, _ := func() (w *World, c *explore.Ctx) {
+				defer func() {
+					if p := recover(); p != nil {
+						fmt.Printf("the scenario cannot be set up: %v\n", p)
+						fmt.Printf("VIOLATION property=%s replay=%s\n", opt.Prop, r.ReplayPath)
+						os.Exit(1)
+					}
+				}()
+				return runOnce(sc.Cfg, rc.Choices, sc.Bound, true, opt.Monitors)
+			}()
 			if opt.ExtraEnd != nil {
 				opt.ExtraEnd(w)
 			}
@@ -181,6 +190,14 @@ func RunScenarios(r *report.Run, scen []Scenario, opt Options) {
 				ex.Deadline = start.Add(opt.Deadline)
 			}
 			ex.OnPanic = func(c *explore.Ctx, p interface{}) {
+				if be, ok := p.(BootError); ok {
+					msg := be.Err.Error()
+					if i := strings.IndexByte(msg, '\n'); i > 0 {
+						msg = msg[:i]
+					}
+					r.Violation(fmt.Sprintf("%s|config=%s|oracle=boot-from-genesis-fails", opt.Prop, sc.Cfg.Name), msg, ReplayCase{Scenario: sc.Cfg.Name, Choices: c.Choices()})
+					return
+				}
 				r.Violation(fmt.Sprintf("%s|config=%s|oracle=harness-panic", opt.Prop, sc.Cfg.Name), fmt.Sprintf("harness panicked: %v", p),
 					ReplayCase{Scenario: sc.Cfg.Name, Choices: c.Choices()})
 			}
